@@ -32,6 +32,8 @@ func ScratchPrograms(id, tier string, seed int) []Program {
 		return ValuePrograms(tier, seed)
 	case "C08":
 		return DerivePrograms(tier, seed)
+	case "C15":
+		return JsonPrograms(tier, seed)
 	}
 	return nil
 }
